@@ -84,6 +84,11 @@ def check_node(sink, spec, sh, o, ns, ident, depth=0):  # noqa: C901
     d = specview.match(spec, sh, deep=False)
     sink.check(d is None, 'inspect/root', 'inspection methods describe the reference root node', ident, d)
     n = sh.arity
+    for meth in ('paths', 'accessors', 'entries', 'children'):
+        km, vm = outcome(getattr(spec, meth))
+        sink.check(km == 'ok', f'inspect/{meth}-raises', f'{meth}() of a treespec obtained from a tree works', ident, lambda: (km, repr(vm)[:200], repr(spec)[:200]))
+        if km != 'ok':
+            return
     children = spec.children()
     sink.check(len(children) == n, 'children/len', 'children() has num_children entries', ident)
     if len(children) != n:
